@@ -59,6 +59,8 @@ def _loop_in_closed_region(loop, region):
 def sweep(h, typ, ops, checks, tier):
     """checks: subset of {'member','lib-in','moments','structure','wf','eq','operands','subset','singleton-laws'}"""
     pairs = zoo.grid_pairs(tier, _seed())
+    if "eq" in checks and tier != "quick" and typ != "float":
+        pairs = pairs[::4]  # `==` in exact Fractions costs seconds per comparison: every 4th thorough pair
     for label, A, B in pairs:
         if not (A.fits() and B.fits()):
             continue
